@@ -155,10 +155,39 @@ def f_shearY2d : Family := { name := "shearY2d", kind := .poly, keys := [[]], nO
 def f_shearX2D : Family := { name := "shearX2D", kind := .poly, keys := [[]], nOut := fun _ => 9, spec := fun _ => mulEl 3 shearXEl }
 def f_shearY2D : Family := { name := "shearY2D", kind := .poly, keys := [[]], nOut := fun _ => 9, spec := fun _ => mulEl 3 shearYEl }
 
+/-! gtx/transform2 and gtx/matrix_interpolation helpers -/
+/-- `shearX3D / shearY3D / shearZ3D (M, s, t) = M · (I with the two off-diagonal entries of column a)`; key a = 0,1,2 -/
+def shear3Spec (a : Nat) (c r : Nat) : E :=
+  -- X: r[0][1] = s, r[0][2] = t ; Y: r[1][0] = s, r[1][2] = t ; Z: r[2][0] = s, r[2][1] = t
+  if c = a ∧ r < 3 ∧ r ≠ a then
+    (let lo := if a = 0 then 1 else 0
+     if r = lo then v 16 else v 17)
+  else ident c r
+def f_shear3D : Family :=
+  { name := "shear3D", kind := .poly, keys := [[0],[1],[2]], nOut := fun _ => 16, spec := fun k => mulEl 4 (shear3Spec (k0 k)) }
+/-- `scaleBias(s, b)` = diag(s, s, s, 1) with last column (b, b, b, 1); `scaleBias(M, s, b) = M · scaleBias(s, b)` -/
+def sbEl (s b : E) (c r : Nat) : E :=
+  if c = 3 then (if r < 3 then b else one) else if c = r then s else zero
+def f_scaleBias : Family :=
+  { name := "scaleBias", kind := .syn, keys := [[]], nOut := fun _ => 16, spec := fun _ j => sbEl (v 0) (v 1) (j / 4) (j % 4) }
+def f_scaleBiasM : Family :=
+  { name := "scaleBiasM", kind := .poly, keys := [[]], nOut := fun _ => 16, spec := fun _ => mulEl 4 (sbEl (v 16) (v 17)) }
+/-- `axisAngleMatrix(axis, a)` = Rodrigues matrix of the normalised axis -/
+def aamAxis (i : Nat) : E := .mul (v i) (.div one (sqrtE (dot3 v v)))
+def f_axisAngleMatrix : Family :=
+  { name := "axisAngleMatrix", kind := .frac, guard := true, keys := [[]], nOut := fun _ => 16,
+    spec := fun _ j => rod (cosA (v 3)) (sinA (v 3)) aamAxis (j / 4) (j % 4),
+    allowed := fun _ => [sqrtE (dot3 v v)] }
+/-- `extractMatrixRotation(M)`: the upper-left 3×3 block, identity elsewhere -/
+def f_extractMatrixRotation : Family :=
+  { name := "extractMatrixRotation", kind := .syn, keys := [[]], nOut := fun _ => 16,
+    spec := fun _ j => if j / 4 < 3 ∧ j % 4 < 3 then v j else ident (j / 4) (j % 4) }
+
 def families : List Family :=
   [f_translate, f_scale, f_scale_slow, f_rotate, f_rotate_slow, f_rotateNormalizedAxis, f_shear, f_shear_slow,
    f_gtranslate, f_gscale, f_grotate, f_lookAt, f_lookAt_cfg, f_lookAt_z, f_lookAt_cfg_z,
    f_rotate2, f_rotateAxis, f_rotate3n, f_rotate4n,
-   f_translate2d, f_scale2d, f_rotate2d, f_shearX2d, f_shearY2d, f_shearX2D, f_shearY2D]
+   f_translate2d, f_scale2d, f_rotate2d, f_shearX2d, f_shearY2d, f_shearX2D, f_shearY2D,
+   f_shear3D, f_scaleBias, f_scaleBiasM, f_axisAngleMatrix, f_extractMatrixRotation]
 
 end Glm.Spec.C09
